@@ -435,6 +435,10 @@ fn sync_write(op: &Value) -> Value {
                 return io_err_json(&e, "flush");
             }
         }
+        if op.get("mid_after").and_then(|v| v.as_u64()) == Some(i as u64) {
+            // something else happens to the cache directory while this writer is open
+            env_act(&op["mid"]);
+        }
     }
     match s(op, "end") {
         "drop" => {
